@@ -212,6 +212,22 @@ CONTAINER_NONRAISING = {'append', 'add', 'clear', 'copy', 'get', 'items',
                         'difference_update'}
 
 
+class RaiseSpec:
+    """What a statement may raise: any builtin (implicit) exception, the
+    in-repo exception classes raised explicitly by the functions it calls
+    (transitively), and -- if it calls something we cannot see -- anything."""
+
+    def __init__(self, explicit, opaque):
+        self.explicit = frozenset(explicit)
+        self.opaque = opaque
+
+
+FILE_ATTRS = {'_file', '_tfile', 'file', '_lock_file', 'blob_removed',
+              '_cond', '_lock', '_commit_lock'}
+FILE_METHODS = {'read', 'write', 'seek', 'tell', 'close', 'flush', 'truncate',
+                'fileno', 'readline', 'readlines'}
+
+
 class Builder:
     """Builds the (optionally inlined) CFG of one function in one class
     context."""
@@ -300,9 +316,117 @@ class Builder:
         if not self.contains_noreturn(exprs, fr):
             n.succ.append((k.nxt if nxt is None else nxt, label))
         if self.may_raise(exprs, fr):
-            for t in k.exc(None):
+            for t in k.exc(self.raise_spec(exprs, fr)):
                 n.succ.append((t, 'e'))
         return self.inline_calls(exprs, n.id, k, fr, s)
+
+    def raise_spec(self, exprs, fr):
+        explicit = set()
+        opaque = False
+        for e in exprs:
+            if e is None:
+                continue
+            for call in calls_in_order(e):
+                tgt = self.resolve_call(call, fr)
+                if tgt is not None:
+                    ex, op = self.explicit_raises(tgt.func, tgt.cls)
+                    explicit |= ex
+                    opaque = opaque or op
+                elif not self.benign_call(call, fr):
+                    opaque = True
+            for n in ast.walk(e):
+                if isinstance(n, (ast.Yield, ast.YieldFrom, ast.Await)):
+                    opaque = True
+        return RaiseSpec(explicit, opaque)
+
+    def benign_call(self, call, fr):
+        """An unresolved call that cannot raise an in-repo exception class:
+        builtins, os/struct/time..., file objects, locks, loggers, builtin
+        containers."""
+        if self.call_is_nonraising(call, fr):
+            return True
+        dn = dotted(call.func)
+        if dn is None:
+            # e.g. self._out.pop().close()
+            if isinstance(call.func, ast.Attribute) and \
+                    call.func.attr in FILE_METHODS:
+                return True
+            return False
+        p = self.canon(call.func, fr)
+        if p is None:
+            return False
+        if p[0].startswith('@'):
+            q = p[0][1:]
+            if q.split('.')[0] != self.prog.package:
+                return True      # builtin or third-party module function
+            obj = self.prog.resolve_qual(q)
+            if isinstance(obj, ClassInfo):
+                # constructor of an in-repo class: its __init__
+                r = self.prog.find_method(obj, '__init__')
+                if r is None:
+                    return True
+                ex, op = self.explicit_raises(r[0], obj)
+                return not ex and not op
+            if isinstance(obj, tuple) and obj[0] == 'const':
+                return True      # fsync = getattr(os, ...) and the like
+            return False
+        if len(p) >= 2 and p[-1] in FILE_METHODS and (
+                p[-2] in FILE_ATTRS or p[0] in ('%local', '%param', '%arg',
+                                                 '%default')):
+            return True
+        if len(p) >= 2 and p[-1] in CONTAINER_NONRAISING | {
+                'pop', 'remove', 'popitem', 'setdefault', 'sort', 'reverse',
+                'index', 'count', 'insert', 'find', 'split', 'strip',
+                'rstrip', 'join', 'format', 'encode', 'decode', 'startswith',
+                'endswith', 'raw', 'timeTime', 'laterThan', 'maxKey',
+                'minKey', 'wait', 'tell'}:
+            return True
+        t = self.path_type(p[:-1], fr) if len(p) >= 2 else None
+        if t in ('file', 'lock:Lock', 'lock:RLock', 'lock:Condition'):
+            return True
+        return False
+
+    def explicit_raises(self, func, cls):
+        """(set of in-repo exception class names explicitly raised by `func`
+        or the functions it calls, calls something opaque?)"""
+        cache = self.prog.__dict__.setdefault('_explicit_raises', {})
+        key = (func.qualname, cls.qualname if cls is not None else None)
+        if key in cache:
+            return cache[key]
+        cache[key] = (frozenset(), False)       # recursion guard
+        explicit = set()
+        opaque = False
+        if func.is_generator and not func.is_contextmanager:
+            cache[key] = (frozenset(), True)
+            return cache[key]
+        fr = Frame(func, cls)
+        if cls is not None and func.cls is None and func.params:
+            fr.bindings[func.params[0]] = (None, None, 'self')
+        saved = getattr(self, 'g', None)
+        if saved is None or saved.root is None:
+            self.g = CFG()
+            self.g.root = fr
+        for n in walk_local(func.node):
+            if isinstance(n, ast.Raise) and n.exc is not None:
+                q = self.exc_class_names(n.exc, fr)
+                if q is None:
+                    opaque = True
+                else:
+                    for x in q:
+                        if '.' in x:
+                            explicit.add(x)
+            elif isinstance(n, ast.Call):
+                tgt = self.resolve_call(n, fr)
+                if tgt is not None:
+                    ex, op = self.explicit_raises(tgt.func, tgt.cls)
+                    explicit |= ex
+                    opaque = opaque or op
+                elif not self.benign_call(n, fr):
+                    opaque = True
+        if saved is not None:
+            self.g = saved
+        cache[key] = (frozenset(explicit), opaque)
+        return cache[key]
 
     def contains_noreturn(self, exprs, fr):
         """Does the statement call a function that always raises (panic,
@@ -427,7 +551,7 @@ class Builder:
         if cv is not True:
             n.succ.append((f_entry, 'F'))
         if self.may_raise([test], fr):
-            for t in k.exc(None):
+            for t in k.exc(self.raise_spec([test], fr)):
                 n.succ.append((t, 'e'))
         return self.inline_calls([test], n.id, k, fr, s)
 
@@ -449,12 +573,16 @@ class Builder:
                                            cont=head.id), fr, yb)
         head.succ.append((body, 'T'))
         head.succ.append((orelse, 'F'))
-        for t in k.exc(None):
+        simple_iter = isinstance(s.iter, (ast.Tuple, ast.List)) or (
+            isinstance(s.iter, ast.Call) and isinstance(s.iter.func, ast.Name)
+            and s.iter.func.id in ('range', 'sorted', 'list', 'enumerate',
+                                   'reversed', 'zip', 'tuple'))
+        for t in k.exc(RaiseSpec((), not simple_iter)):
             head.succ.append((t, 'e'))
         it = self.g.new('foriter', s.iter, fr, {'stmt': s})
         it.succ.append((head.id, 'n'))
         if self.may_raise([s.iter], fr):
-            for t in k.exc(None):
+            for t in k.exc(self.raise_spec([s.iter], fr)):
                 it.succ.append((t, 'e'))
         return self.inline_calls([s.iter], it.id, k, fr, s)
 
@@ -495,7 +623,7 @@ class Builder:
                                                     for kw in e.keywords]
                          for c in calls_in_order(a)]
             if any(not self.call_is_nonraising(c, fr) for c in inner):
-                for t in k.exc(None):
+                for t in k.exc(self.raise_spec(list(inner), fr)):
                     if t not in targets:
                         targets.append(t)
         n.info['raised'] = raised
@@ -508,7 +636,8 @@ class Builder:
         n.succ.append((k.nxt, 'T'))
         seen = set()
         for t in list(k.exc({'AssertionError'})) + (
-                list(k.exc(None)) if self.may_raise([s.test], fr) else []):
+                list(k.exc(self.raise_spec([s.test], fr)))
+                if self.may_raise([s.test], fr) else []):
             if t not in seen:
                 seen.add(t)
                 n.succ.append((t, 'e'))
@@ -666,6 +795,17 @@ class Builder:
             return 'yes'
         if raised is None:
             return 'maybe'
+        if isinstance(raised, RaiseSpec):
+            if raised.opaque:
+                return 'maybe'
+            for t in types:
+                if '.' not in t:
+                    return 'maybe'      # builtin class: implicit exceptions
+                anc_t = self.ancestors(t)
+                for r in raised.explicit:
+                    if t in self.ancestors(r) or r in anc_t:
+                        return 'maybe'
+            return 'no'
         hits = 0
         for r in raised:
             anc = self.ancestors(r)
@@ -714,7 +854,7 @@ class Builder:
             body = inner(kb)
             n = self.g.new('withenter', s, fr, {'item': item})
             n.succ.append((body, 'n'))
-            for t in k.exc(None):
+            for t in k.exc(self.raise_spec([ce], fr)):
                 n.succ.append((t, 'e'))
             return self.inline_calls([ce], n.id, k, fr, s)
 
